@@ -141,6 +141,31 @@ int main(int argc, char **argv) {
             while (parsec_list_nolock_pop_front(&parsec_termdet_user_trigger_delayed_messages)) ;
             parsec_atomic_lock_init(&parsec_termdet_user_trigger_delayed_messages.atomic_lock);
             if (tps[arr_me]->tdm.module->taskpool_state(tps[arr_me]) == PARSEC_TERM_TP_TERMINATED) rel(arr_me);
+        } else if (!strncmp(l, "ops ", 4)) {
+            /* "ops n root me op op …": the module's interface calls of ONE process in sequence:
+             * R ready, T trigger (set_nb_tasks(0) on the root, the notification's dispatch elsewhere),
+             * aN addto_runtime_actions(N), sN set_runtime_actions(N), nN set_nb_tasks(N), tN addto_nb_tasks(N) */
+            char *q = l + 4, *e; long n = strtol(q, &e, 10); q = e; long root = strtol(q, &e, 10); q = e; long me = strtol(q, &e, 10); q = e;
+            if (n < 1 || n > MAXN || me < 0 || me >= n || root < 0 || root >= n) { printf("<bad case>\n"); continue; }
+            mk((int)n, (int)me); nsent = 0; cur_rank = (int)me;
+            const parsec_termdet_base_module_t *mod = tps[me]->tdm.module;
+            for (char *tok = strtok(q, " "); tok; tok = strtok(NULL, " ")) {
+                long a = tok[1] ? strtol(tok + 1, NULL, 10) : 0;
+                switch (tok[0]) {
+                case 'R': mod->taskpool_ready(tps[me]); break;
+                case 'T': if (me == root) mod->taskpool_set_nb_tasks(tps[me], 0);
+                          else { parsec_termdet_user_trigger_msg_t m = { 7, (int)root };
+                                 parsec_termdet_user_trigger_msg_dispatch_taskpool(tps[me], &parsec_ce, 0, &m, sizeof(m), 0, NULL); }
+                          break;
+                case 'a': mod->taskpool_addto_runtime_actions(tps[me], (int)a); break;
+                case 's': mod->taskpool_set_runtime_actions(tps[me], (int)a); break;
+                case 'n': mod->taskpool_set_nb_tasks(tps[me], (int)a); break;
+                case 't': mod->taskpool_addto_nb_tasks(tps[me], (int)a); break;
+                default: break;
+                }
+            }
+            printf("sig=%d sent=%d state=%d pa=%d\n", cb_count[me], nsent, (int)mod->taskpool_state(tps[me]), (int)tps[me]->nb_pending_actions);
+            free(tps[me]->tdm.monitor); free(tps[me]); free(ctxs[me]);
         } else printf("<bad case>\n");
     }
     return 0;
